@@ -224,6 +224,8 @@ func (f *frame) runDefers() {
 			} else {
 				f.inline(callee, ds.args, nil, true)
 			}
+		} else if bi, ok := c.Value.(*ssa.Builtin); ok {
+			f.builtinArgs(bi, &c, ds.args)
 		} else {
 			fail("unsupported deferred call %s", c.String())
 		}
@@ -236,12 +238,16 @@ func (f *frame) runDefers() {
 // builtins
 
 func (f *frame) builtin(bi *ssa.Builtin, c *ssa.CallCommon) []sval {
-	t := f.t
-	th := t.th
 	var args []sval
 	for _, a := range c.Args {
 		args = append(args, f.val(a))
 	}
+	return f.builtinArgs(bi, c, args)
+}
+
+func (f *frame) builtinArgs(bi *ssa.Builtin, c *ssa.CallCommon, args []sval) []sval {
+	t := f.t
+	th := t.th
 	intT := types.Typ[types.Int]
 	toInt := func(e Expr) Expr { return e } // lengths are Int in int theory, bv64 in bv theory
 	switch bi.Name() {
@@ -291,6 +297,10 @@ func (f *frame) builtin(bi *ssa.Builtin, c *ssa.CallCommon) []sval {
 	case "print", "println":
 		return nil
 	case "close":
+		if t.fc.Concurrent {
+			f.interfere()
+			return nil
+		}
 		t.cur.Assert(False, "subset/unreachable-close-chan", t.fc.Props)
 		t.cur.Assume(False)
 		return nil
